@@ -52,6 +52,9 @@ class ConclusionSelector(LogicalBinaryOperator, ABC):
         required_output = {
             k: v for k, v in output.bindings.items() if k in required_vars
         }
+        # the same bindings can trigger the conclusions of several branches (next_rule), so remember which
+        # conclusions were produced for them and not only that some were
+        required_output[-1] = tuple(sorted(conclusion._id_ for conclusion in conclusions))
 
         if not self.concluded_before[not self._is_false_].check(required_output):
             self._conclusion_.update(conclusions)
